@@ -946,7 +946,11 @@ class Filterbank(ABC):
         if outfile_name is None:
             outfile_name = f"{self.header.basename}_digi.fil"
 
-        out_file = self.header.prep_outfile(outfile_name, nbits=nbits_out)
+        out_file = self.header.prep_outfile(
+            outfile_name,
+            updates={"tstart": self.header.mjd_after_nsamps(start)},
+            nbits=nbits_out,
+        )
         for _, _, data in self.read_plan(
             gulp=gulp,
             start=start,
